@@ -1,5 +1,6 @@
 import PydraModel.DriverUtil
 import PydraModel.Batch.Model
+import PydraModel.Gen.EnvRegexes
 open Lean PydraModel PydraModel.DriverUtil
 open PydraModel.Batch
 
@@ -62,6 +63,16 @@ def handle (j : Json) : Json :=
       let f := if (← getStr j "context") == "node" then submitNode v re else submitPlain v re
       return Json.mkObj [("final", Json.str (match f with
         | .complete => "complete" | .failed => "failed" | .stillPolling => "stillPolling" | .hang => "hang"))]
+    | "load_and_run" =>
+      let b (k : String) : Except String Bool := j.getObjValAs? Bool k
+      let oks := PydraModel.Gen.EnvRegexes.loadAndRunResultKwargs.map
+        (ctorOK PydraModel.Gen.EnvRegexes.resultFields PydraModel.Gen.EnvRegexes.resultMandatoryFields)
+      let o := loadAndRun (oks.getD 0 false) (oks.getD 1 false)
+        ⟨!PydraModel.Gen.EnvRegexes.slurmPassesQuotedPath || PydraModel.Gen.EnvRegexes.loadAndRunConvertsPath,
+         ← b "pickle_loads", ← b "parent_exists", ← b "run_raises", ← b "result_by_run", ← b "error_by_run"⟩
+      return Json.mkObj [("exc", Json.str (match o.exc with | .none => "none" | .original => "original" | .typeError => "TypeError" | .attributeError => "AttributeError")),
+                         ("errored_result_written", toJson o.erroredResultWritten), ("error_file_written", toJson o.errorFileWritten),
+                         ("result_kept", toJson o.resultKept)]
     | "sge_run" =>
       let o := sgeRun .dict true (← getNat j "tasks") []
       return Json.mkObj [("verdict", verdictJ o.verdict), ("calls", Json.arr (o.calls.map strsJ).toArray)]
